@@ -9,6 +9,8 @@ package chain
 import (
 	"crypto/sha256"
 	"encoding/binary"
+	"encoding/hex"
+	"io"
 	"encoding/json"
 	"fmt"
 	"os"
@@ -77,6 +79,10 @@ type Options struct {
 	AppState []byte // if set, InitChain from this exported state (import mode)
 	InitialHeight int64
 	GenesisTime   time.Time
+	// NoFirstBlock leaves the first block to the caller (import mode: the first block is part of the history)
+	NoFirstBlock bool
+	// StoreTrace, if set, receives the multistore's operation trace (diagnostics)
+	StoreTrace io.Writer
 }
 
 type Chain struct {
@@ -94,6 +100,10 @@ type Chain struct {
 	LastBlock *abci.ResponseFinalizeBlock
 	LastAppHash []byte
 	Denoms []string
+	pend       map[string]uint64
+	// BeforeCommit, if set, runs between FinalizeBlock and Commit (the race tier joins its mempool-connection load here)
+	BeforeCommit func()
+	pendHeight int64
 }
 
 func DetAccount(tag string, i int) Account {
@@ -126,6 +136,9 @@ func New(o Options) *Chain {
 	db := cosmosdb.NewMemDB()
 	a := app.NewOsmosisApp(log.NewNopLogger(), db, nil, true, map[int64]bool{}, c.home, 0, sims.EmptyAppOptions{}, app.EmptyWasmOpts, baseapp.SetChainID(ChainID))
 	c.App = a
+	if o.StoreTrace != nil {
+		a.SetCommitMultiStoreTracer(o.StoreTrace)
+	}
 	for i := 0; i < o.NumAccounts; i++ {
 		c.Accs = append(c.Accs, DetAccount("acc", i))
 	}
@@ -165,7 +178,9 @@ func New(o Options) *Chain {
 	c.newCtx()
 	// InitChain's writes live in the finalize-block branch until the first Commit: run the first block so
 	// that the uncached context sees the genesis state.
-	c.NextBlock(time.Second)
+	if !o.NoFirstBlock {
+		c.NextBlock(time.Second)
+	}
 	return c
 }
 
@@ -182,6 +197,9 @@ func (c *Chain) header() cmtproto.Header {
 	}
 	return h
 }
+
+// ResetCtx rebuilds the uncached context after Height/Time were set by hand.
+func (c *Chain) ResetCtx() { c.newCtx() }
 
 func (c *Chain) newCtx() {
 	c.Ctx = c.App.BaseApp.NewUncachedContext(false, c.header())
@@ -334,6 +352,9 @@ func (c *Chain) NextBlock(dt time.Duration, txs ...[]byte) *abci.ResponseFinaliz
 	if err != nil {
 		panic(fmt.Sprintf("FinalizeBlock(h=%d): %v", c.Height, err))
 	}
+	if c.BeforeCommit != nil {
+		c.BeforeCommit()
+	}
 	if _, err := c.App.Commit(); err != nil {
 		panic(fmt.Sprintf("Commit(h=%d): %v", c.Height, err))
 	}
@@ -473,5 +494,18 @@ func (c *Chain) Digest(ctx sdk.Context, stores ...string) [32]byte {
 	}
 	var out [32]byte
 	copy(out[:], h.Sum(nil))
+	return out
+}
+
+// DumpKV returns every store's raw key/value pairs (hex) as seen by ctx.
+func (c *Chain) DumpKV(ctx sdk.Context) map[string][][2]string {
+	out := map[string][][2]string{}
+	for n, k := range c.App.AppKeepers.GetKVStoreKey() {
+		it := ctx.MultiStore().GetKVStore(k).Iterator(nil, nil)
+		for ; it.Valid(); it.Next() {
+			out[n] = append(out[n], [2]string{hex.EncodeToString(it.Key()), hex.EncodeToString(it.Value())})
+		}
+		it.Close()
+	}
 	return out
 }
